@@ -336,6 +336,21 @@ func (p c01) Run(c *Ctx, raw json.RawMessage) Case {
 			declared = append(declared, []any{it.StructName, counts[it.StructName]})
 		}
 		impl["declared"] = declared
+		// the methods every mock type has, in the order they are emitted
+		methods := []any{}
+		for _, it := range d.Ifaces {
+			re := regexp.MustCompile(`(?m)^func \((?:_mock|mock) \*` + regexp.QuoteMeta(it.StructName) + `(?:\[[^\]]*\])?\) ([A-Za-z_][A-Za-z0-9_]*)\(`)
+			names := []any{}
+			for _, m := range re.FindAllStringSubmatch(src, -1) {
+				n := m[1]
+				if in.Template == "matryer" && (strings.HasSuffix(n, "Calls")) {
+					continue // the accessors and resets of the matryer mock
+				}
+				names = append(names, n)
+			}
+			methods = append(methods, []any{it.StructName, names})
+		}
+		impl["methods"] = methods
 		var asrt strings.Builder
 		pkgClause := map[string]string{"inpkg": "src", "testpkg": "src_test", "separate": "mocks"}[d.Placement]
 		fmt.Fprintf(&asrt, "package %s\n\nimport (\n", pkgClause)
